@@ -235,3 +235,43 @@ Example drained_run_delivers_everything :
      PChunk; PDeliver; PDequeue; PSubmit []; PChunk; PDeliver; PDequeue; PCredit] = Some s /\
     p_delivered s = [[1; 2; 3; 4; 5]; []] /\ p_swin s = 3.
 Proof. eexists. split; [vm_compute; reflexivity|]. split; reflexivity. Qed.
+
+(* ---------- the emitted frame stream is always well formed (C13 at system level) ---------- *)
+Section WF.
+Variable A : Type.
+Variable cmax W : nat.
+
+Definition is_bad (o : rout A) : bool := match o with Bad _ => true | _ => false end.
+
+Lemma rstep_bad_failed (st : rstate A) f st' o : rstep st f = (st', o) -> is_bad o = true -> st' = RFailed.
+Proof.
+  destruct st as [|sz b|], f as [sz' d|d]; cbn [rstep]; unfold fill; intros H Hb;
+    repeat match type of H with context [if ?c then _ else _] => destruct c end;
+    inversion H; subst; try reflexivity; discriminate.
+Qed.
+
+Lemma rrun_not_failed_no_bad (fs : list (dframe A)) : forall st,
+  fst (rrun st fs) <> RFailed -> existsb is_bad (snd (rrun st fs)) = false.
+Proof.
+  induction fs as [|f fs IH]; intros st H; [reflexivity|].
+  cbn [rrun] in *. destruct (rstep st f) as [st1 o] eqn:E.
+  specialize (IH st1). destruct (rrun st1 fs) as [st2 os] eqn:E2. cbn [fst snd existsb] in *.
+  rewrite (IH H), orb_false_r. destruct (is_bad o) eqn:Eb; [|reflexivity].
+  exfalso. pose proof (rstep_bad_failed st f E Eb) as ->.
+  pose proof (rrun_failed fs) as [Hf _]. rewrite E2 in Hf. cbn [fst] in Hf. congruence.
+Qed.
+
+(* under every interleaving, what the sender has put on the wire so far is a well-formed
+   message stream: a conforming reader never hits a framing violation on it *)
+Theorem system_emitted_stream_wellformed ls (s : pst A) : prun cmax (p_init A W) ls = Some s ->
+  fst (rrun RIdle (p_sent s)) <> RFailed /\ existsb is_bad (snd (rrun RIdle (p_sent s))) = false.
+Proof.
+  intro H. destruct (prun_inv ls (pinv_init A cmax W) H) as [_ _ (comp & _ & _ & Hst) _ _ _ _].
+  assert (Hnf : fst (rrun RIdle (p_sent s)) <> RFailed).
+  { destruct (p_cur s) as [[[m rest] [|]]|].
+    - destruct Hst as [-> _]. discriminate.
+    - destruct Hst as (b & -> & _). discriminate.
+    - rewrite Hst. discriminate. }
+  split; [exact Hnf | apply rrun_not_failed_no_bad; exact Hnf].
+Qed.
+End WF.
